@@ -111,7 +111,7 @@ class DeathSuite(cc.ChanSuite):
         active = []      # (search string, exc id, offset of registration)
         stack = []
         done = False     # after the first death exception we stop judging (ring contents are then stale by design)
-        for o, ob in zip(case["ops"], obs[0]):
+        for idx, (o, ob) in enumerate(zip(case["ops"], obs[0])):
             r, _now, _streams, iolog = ob
             if r[0] == 8:
                 r = r[2]
@@ -132,7 +132,7 @@ class DeathSuite(cc.ChanSuite):
             if k not in ("read", "read_iter", "readline", "expect", "rup", "rut"):
                 continue
             before = consumed
-            consumed = before + ob_consumed(case, before, iolog)
+            consumed = obs[2][idx]
             if done:
                 continue
             # expected: does some active string's first occurrence (in data since its registration) end in (before, consumed] ?
